@@ -11,7 +11,7 @@ for n in $NAMES; do
   checks=$(python3 -c "import json;m=json.load(open('$d/meta.json'));print(' '.join([m['property']]+m.get('also_checks',[])))")
   W=/tmp/mut/seeded-$n-$$; mkdir -p /tmp/mut
   git -C /repo worktree add -q --detach $W HEAD
-  if ! git -C $W apply $HERE/$d/patch.diff 2>/dev/null; then echo "$n: patch does not apply to HEAD"; git -C /repo worktree remove --force $W; continue; fi
+  if ! git -C $W apply $HERE/$d/patch.diff 2>/dev/null; then echo "$n: patch does not apply to HEAD"; git -C /repo worktree remove --force $W; echo '{"name": "'$n'", "stale": true, "results": [], "note": "patch no longer applies to HEAD: a later fix commit rewrote the lines it changes"}' > $d/result.json; continue; fi
   res=""
   for c in $checks; do
     [ -f props/$c.json ] || { res="$res $c:noprop"; continue; }
